@@ -7,15 +7,19 @@ EXTENDS MC_ConfText, Json
 Skel == <<cfg.fmt, cfg.acc, Len(stack), nn>>
 Emit == PrintT(<<"BEHAV", ToJson(<<obs'>>)>>)
 
-GenOptNames  == {nA, nA1, nAsB, nABsC, nAuB, n1}
-GenSecNames  == {nA, nE, nAsB, nAuB, nA1}
-GenValues    == {vE, vX, vXY, vSp, vQ, vBQ, vHash, vSemi, vNl, vLong(249), vLong(250), vLong(255)}
-GenValuesT   == GenValues \cup {vLong(254), vLong(256), vLong(65535), vLong(65536), vLong(65537)}
 \* names with the path separator '.': left out while the open finding C09 name_contains_path_sep
 \* still reproduces (checks/c09.py probes it and sets $AVOID_DOT), so that the rest of the
 \* space is not cut short; seeded documents keep exercising them
 Dotted == IF "AVOID_DOT" \in DOMAIN IOEnv THEN {} ELSE {nAdB}
+GenOptNames  == {nA, nA1, nAsB, nABsC, nAuB, n1} \cup Dotted
+GenSecNames  == {nA, nE, nAsB, nAuB, nA1} \cup Dotted
+GenValues    == {vE, vX, vXY, vSp, vQ, vBQ, vHash, vSemi, vNl, vLong(249), vLong(250), vLong(255)}
+GenValuesT   == GenValues \cup {vLong(254), vLong(256), vLong(65535), vLong(65536), vLong(65537)}
 GenOptNamesT == GenOptNames \cup Dotted \cup {<< <<97, 255>> >>, << <<97, 256>> >>}
 GenSecNamesT == GenSecNames \cup Dotted \cup {<< <<97, 255>> >>, << <<97, 256>> >>}
+\* names across the allocation steps of the path buffer (and the 8 bit length fields)
+LongNames    == {<< <<97, n>> >> : n \in {31, 32, 33, 63, 64, 65, 66, 127, 128, 129, 191, 192, 193, 194, 255, 256, 257, 511, 512, 513}}
+NameRunValues == {vX}
+NameRunDecos  == {DTight}
 GenDecos     == {DTight, DSpaced, DCom, DBlank, DCrlf, DGlue}
 =============================================================================
